@@ -93,6 +93,21 @@ theorem matchPolicies_none (tsi tsr : TS) (ps : List Policy) (i0 : Nat) (h : mat
     · exact ⟨h1, h2⟩
     · exact ih (i0 + 1) h x hx
 
+/-- whatever the policy look-up returns is contained in some offered TSi/TSr pair and in the chosen policy entry -/
+theorem getIpsecConf_narrows (tsis tsrs : List TS) (protect : List Policy) (i : Nat) (ctsr ctsi : TS)
+    (h : getIpsecConf tsis tsrs protect = some (i, ctsr, ctsi)) :
+    ∃ tsi ∈ tsis, ∃ tsr ∈ tsrs, ∃ c ∈ protect, protect[i]? = some c ∧
+      tsSubset ctsi tsi = true ∧ tsSubset ctsr tsr = true ∧
+      tsSubset ctsi c.peerTs = true ∧ tsSubset ctsr c.myTs = true := by
+  unfold getIpsecConf at h
+  obtain ⟨tsi, htsi, h1⟩ := firstSome_some _ _ _ h
+  obtain ⟨tsr, htsr, h2⟩ := firstSome_some _ _ _ h1
+  obtain ⟨c, hc, hidx, _, hcase⟩ := matchPolicies_some tsi tsr protect 0 i ctsr ctsi h2
+  refine ⟨tsi, by simpa using htsi, tsr, by simpa using htsr, c, hc, by simpa using hidx, ?_⟩
+  rcases hcase with ⟨a, b, rfl, rfl⟩ | ⟨a, b, rfl, rfl⟩
+  · exact ⟨tsSubset_refl _, tsSubset_refl _, a, b⟩
+  · exact ⟨a, b, tsSubset_refl _, tsSubset_refl _⟩
+
 /-! ### network conversion -/
 
 theorem div_block (h k q : Nat) (hk : k ≤ h) : (2 ^ h * q) / 2 ^ k = 2 ^ (h - k) * q := by
